@@ -17,6 +17,21 @@ CHECKS = {
    note="Trusts the harness read/write loops (retry Interrupted like std's read_to_end/write_all) and the LZIP member-boundary rule; only x86_64; streams come from the crate's own writers."),
 }
 
+CHECKS.update({
+ "C08": dict(engine="lzsim-mt", category="exploration", design_ref="DESIGN.md §3 C08",
+   technique="deterministic simulation: real MT reader/writer code on shuttle primitives, own seeded scheduler (random / PCT / round-robin) decides every interleaving, recorded schedule in the replay file",
+   text="LZMA2WriterMT/LZIPWriterMT output is decoded single- and multi-threaded and must equal the input; LZMA2ReaderMT/LZIPReaderMT output must equal the single-threaded reader's on streams with dependent chunks, independent units, empty members and trailing bytes, for worker counts 0..300 (clamped) and one seeded schedule per run. Seeded exploration of schedules x inputs: evidence, not proof.",
+   note="shuttle models every atomic as SeqCst (no weak-memory reorderings); coroutines replace OS threads; x86_64 only."),
+ "C09": dict(engine="lzsim-mt", category="exploration", design_ref="DESIGN.md §3 C09",
+   technique="deterministic simulation with fault injection under a seeded scheduler: deadlock = no runnable task (exact), livelock = step budget",
+   text="One fault per run (corrupt unit, truncation, zero-length input, missing terminator, persistent source/seek error, sink error/flush error/Ok(0)) under one seeded schedule. Every caller operation must return; the overall result must be Err when the single-threaded reader fails on the same bytes or the injected I/O fault fired, and never Ok with missing or different bytes (LZIP: the original is the authority, LZMA2: the single-threaded reader of the same bytes).",
+   note="Deadlock detection is exact for the explored schedule only; step budget 30000 + 600/op + 200/KiB."),
+ "C10": dict(engine="lzsim-mt", category="exploration", design_ref="DESIGN.md §3 C10",
+   technique="deterministic simulation: drop/finish injected at every point of a caller history under seeded schedules; leaked blocked task detection by the scheduler; worker census hook",
+   text="The MT reader/writer is dropped after d = 0..11 caller operations, after finish/end of stream, or after an injected error. drop must return, all spawned tasks must run to completion afterwards (a task blocked forever is a leaked thread), and the census hook must never see more live workers than clamp(requested,1,256).",
+   note="A blocked coroutine under shuttle stands for a blocked OS thread; SeqCst atomics only."),
+})
+
 NOT_YET = {}
 for i in range(1, 20):
     pid = f"C{i:02d}"
